@@ -82,6 +82,14 @@ Theorem C11_merge_object : forall fuel K E exts n d is_ fs dirs t',
 Proof. exact extend_object_merges. Qed.
 Print Assumptions C11_merge_object.
 
+Theorem C11_merge_interface : forall fuel K E exts n d fs dirs t',
+  extend_tdef fuel K E exts (TInterface n d fs dirs) = Ok t' ->
+  exists new_fields,
+    omap (build_field fuel K E) (flat_map ext_fields exts) = Ok new_fields
+    /\ t' = TInterface n d (fs ++ new_fields) (dirs ++ flat_map ext_dirs exts).
+Proof. exact extend_interface_merges. Qed.
+Print Assumptions C11_merge_interface.
+
 Theorem C11_merge_enum : forall fuel K E exts n d vs dirs t',
   extend_tdef fuel K E exts (TEnum n d vs dirs) = Ok t' ->
   exists new_values,
